@@ -70,6 +70,14 @@ type HopSpec struct {
 	DestKind string `json:"dest_kind,omitempty"`
 	// FromOther makes a destination-form reply come from another address (C04)
 	FromOther string `json:"from_other,omitempty"`
+	// Both: the probe is answered twice, once by a router (time exceeded) and once by the target
+	// (per-packet load balancing over unequal paths, a route change, a duplicated probe); BothDelayUs
+	// is the delay of the answer the script would not otherwise produce
+	Both        bool  `json:"both,omitempty"`
+	BothDelayUs int64 `json:"both_delay_us,omitempty"`
+	// AckLost (SACK): the probe reaches the target and is recorded by its receiver, but the
+	// duplicate ACK is lost; the byte is only reported inside the SACK blocks of later ACKs
+	AckLost bool `json:"ack_lost,omitempty"`
 }
 
 // FlowScript is the behaviour of the network for one flow.
